@@ -2,6 +2,7 @@
 
 from __future__ import annotations
 
+import asyncio
 import random
 from typing import Any, Dict, List, Optional
 
@@ -200,13 +201,24 @@ async def scenario(world: WorldA) -> None:
             del installs[:]
             world.log.add("transfer-begin", ti, start, length, retries)
             t0 = world.now()
-            ok = await struct.get(
+            get_task = asyncio.ensure_future(struct.get(
                 protocol,
                 lambda: GeckoStatusBlockProtocolHandler.request(
                     protocol.get_and_increment_sequence_counter(False), start, length, parms=spa.sendparms
                 ),
                 retry_count=retries,
-            )
+            ))
+            get_task.set_name("HARNESS:get")
+            # the statement bounds the number of requests: watch it while the call runs, so that a call that never gives up is a
+            # verdict (too many requests) and not a run that hits the simulator's caps
+            while not get_task.done():
+                await asyncio.wait([get_task], timeout=1.0)
+                n_req = sum(1 for r in world.net.history[mark:] if r.verb == "STATU" and r.src[0] != SPA_IP)
+                if n_req > retries + 2 and not get_task.done():
+                    get_task.cancel()
+                    world.violate(PROP, "too-many-requests", f"transfer#{ti} start={start} length={length} retries={retries} profile={cfg['profile']}: "
+                                  f"{n_req} STATU requests sent and the call is still going, configured {retries}")
+            ok = get_task.result()
             t1 = world.now()
             new = struct.status_block
             hist = world.net.history[mark:]
